@@ -241,6 +241,23 @@ static int mode_cycle(int reps)
                         for (int i = 0; i < uref.size(); i++) dd = std::max(dd, std::abs(uref[i] - l0.solution()[i]));
                         printf("ORC case=%d textbook_cycle_diff=%s scale=%s kind=%d extrap=%d L=%d nu1=%d nu2=%d fgs=%d\n", case_no - 1, hex(dd).c_str(), hex(max_abs(uref)).c_str(), kind, extrap, L, nu1, nu2, (int)v.fgs());
                     }
+                    if (!extrap && L >= 3) {
+                        // oracle 0b: the same for a cycle ENTERED BELOW THE FINEST LEVEL with a real iterate, the way the nested iteration of
+                        // initializeSolution() calls it (multigrid_X_Cycle(l, solution_l, rhs_l, residual_l)): textbook recursion on levels 1 … L-1
+                        Level& l1 = v.level(1);
+                        const int n1 = l1.grid().numberOfNodes();
+                        Vector<double> u1(n1), f1(n1);
+                        fill_garbage(rng, u1);
+                        for (int i = 0; i < n1; i++) f1[i] = rng.uniform(-1.0, 1.0);
+                        Vector<double> uref = u1;
+                        ref_plain(v, L, kind, nu1, nu2, 1, uref, f1);
+                        for (int l = 1; l < L; l++) { fill_garbage(rng, v.level(l).residual()); fill_garbage(rng, v.level(l).error_correction()); if (l > 1) fill_garbage(rng, v.level(l).solution()); }
+                        l1.solution() = u1;
+                        v.cycle(kind, false, 1, l1.solution(), f1, l1.residual());
+                        double dd = 0;
+                        for (int i = 0; i < n1; i++) dd = std::max(dd, std::abs(uref[i] - l1.solution()[i]));
+                        printf("ORC case=%d textbook_cycle_diff=%s scale=%s kind=%d extrap=0 L=%d nu1=%d nu2=%d fgs=%d entered_on_level=1\n", case_no - 1, hex(dd).c_str(), hex(max_abs(uref)).c_str(), kind, L, nu1, nu2, (int)v.fgs());
+                    }
                     if (!extrap) {
                         // oracle 1: started from the exact discrete solution the cycle returns it (scratch = garbage)
                         l0.initializeDirectSolver(v.geo(), v.coef(), g.DirBC_Interior(), 1, g.stencilDistributionMethod());
